@@ -20,7 +20,7 @@ extern uint8_t c5_arena[C5_ARENA_MAX];
 #define C5_STORE (c5_arena + 16)
 
 uint8_t c5_value(int i);
-void orc_put_begin(void); void orc_put_end(int ok, uint8_t v);
+void orc_put_begin(uint8_t v); void orc_put_end(int ok, uint8_t v);
 void orc_get_begin(void); void orc_get_end(int r);
 void orc_empty_begin(void); void orc_empty_end(bool e);
 
